@@ -27,7 +27,7 @@ def plan(tier, seed):
     pl.lemmas = ["C07-N (proved): _check_final_operation is the documented decision table over membership of the accumulated field name in "
                  "the declared sets (symbolic membership); every term / phrase is reached once with the accumulated dotted path",
                  "C07-M (finite exhaustive): clash detection per (parent class, child class, default operator)",
-                 "C07-B (BOUNDED): over the corpus x 24 configurations the exception type, or its absence, equals the structural predicate; "
+                 "C07-B (BOUNDED): over the corpus x 80 configurations the exception type, or its absence, equals the structural predicate; "
                  "no other exception escapes"]
     pl.claim = "decision table and clash detection proved / exhaustive; 'exactly those and no other exception' on whole queries bounded."
     return pl
